@@ -218,3 +218,38 @@ pub fn catch<T>(f: impl FnOnce() -> T) -> Result<T, String> {
         }),
     }
 }
+
+/// `<bin> [--seed N] [--tier quick|thorough] [--out DIR] [--replay FILE] [--scale K]`
+/// (also silences the messages of caught panics: they are outcomes, not crashes of the harness)
+pub fn parse_args(prop: &str) -> Args {
+    let a: Vec<String> = std::env::args().collect();
+    let mut args = Args { seed: 1, thorough: false, out: PathBuf::from(format!("out/{}", prop)), replay: None, scale: 1 };
+    let mut i = 1;
+    while i < a.len() {
+        match a[i].as_str() {
+            "--seed" => {
+                args.seed = a[i + 1].parse().expect("seed");
+                i += 2
+            }
+            "--tier" => {
+                args.thorough = a[i + 1] == "thorough";
+                i += 2
+            }
+            "--out" => {
+                args.out = PathBuf::from(&a[i + 1]);
+                i += 2
+            }
+            "--replay" => {
+                args.replay = Some(PathBuf::from(&a[i + 1]));
+                i += 2
+            }
+            "--scale" => {
+                args.scale = a[i + 1].parse().expect("scale");
+                i += 2
+            }
+            x => panic!("unknown argument {}", x),
+        }
+    }
+    std::panic::set_hook(Box::new(|_| {}));
+    args
+}
